@@ -40,8 +40,10 @@ class Pool:
         self.atmo = atmo
         self.shots = {
             "s1": m.Shot(w1, a1, U.Degree(0), atmo=atmo, winds=[m.Wind(U.MPH(5), U.Degree(90), U.Foot(300)), m.Wind(U.MPH(8), U.Degree(200), U.Foot(2000))]),
-            "s2": m.Shot(w2, a1, U.Degree(4), U.Mil(0.3), U.Degree(3), atmo=m.Atmo(U.Foot(0), U.InHg(29.92), U.Fahrenheit(59), 0)),
-            "s3": m.Shot(w1, a2, U.Degree(-2), atmo=atmo, winds=[m.Wind(U.MPH(6), U.Degree(270), U.Foot(1e8))]),
+            "s2": m.Shot(w2, a1, U.Degree(4), U.Mil(0.3), U.Degree(3), atmo=m.Atmo(U.Foot(0), U.InHg(29.92), U.Fahrenheit(59), 0),
+                         winds=[m.Wind(U.MPH(4), U.Degree(45), U.Foot(200)), m.Wind(U.MPH(9), U.Degree(300), U.Foot(450))]),
+            "s3": m.Shot(w1, a2, U.Degree(-2), atmo=atmo, winds=[m.Wind(U.MPH(6), U.Degree(270), U.Foot(150)),
+                                                                  m.Wind(U.MPH(3), U.Degree(100), U.Foot(400)), m.Wind(U.MPH(7), U.Degree(0), U.Foot(1e8))]),
         }
         self.weapon_of = {"s1": "w1", "s2": "w2", "s3": "w1"}
         self.ammo_of = {"s1": "a1", "s2": "a1", "s3": "a2"}
